@@ -18,6 +18,7 @@ import (
 	"github.com/marekgalovic/anndb/storage/wal"
 
 	"github.com/coreos/etcd/raft/raftpb"
+	"github.com/marekgalovic/anndb/index"
 	uuid "github.com/satori/go.uuid"
 )
 
@@ -259,6 +260,13 @@ func runC03(a *args) error {
 		if err := readReplayCase(a.replay, &c); err != nil {
 			return err
 		}
+		if c.Note == "refused-snapshot" {
+			// the scenario of c03RefusedSnapshot, in a process of its own (a restart that cannot work takes raft's
+			// goroutine - and the process - down)
+			c03RefusedSnapshot(st)
+			writeJSON(a.out+"/cases.json", []c03Case{})
+			return writeJSON(a.out+"/stats.json", st)
+		}
 		cs, err := runC03History(r, c.Ops, c.CrashAt)
 		if err != nil {
 			return err
@@ -318,6 +326,21 @@ func runC03(a *args) error {
 	}
 	prelude := "From Verif Require Import Base.Prelude Store.Spec Store.Partition Store.Check Replica.Check.\nOpen Scope N_scope.\n"
 	defs := "Definition bad_oracle := Eval vm_compute in bad_idx rc_case_oracle_ok cases 0.\nPrint bad_oracle.\n"
+	if a.replay == "" {
+		cst, crashed, tail := runIsolated("C03", c03Case{Note: "refused-snapshot"}, a, 9000)
+		switch {
+		case crashed:
+			st.ImplFailures = append(st.ImplFailures, implFailure{Case: -1, What: "acknowledged inserts, a local snapshot attempt refused by the store, more inserts, stop, restart: the restarted replica's process died: " + tail, Key: "restart-failed:refused-snapshot", Input: c03Case{Note: "refused-snapshot"}})
+		case cst != nil:
+			for _, f := range cst.ImplFailures {
+				f.Input = c03Case{Note: "refused-snapshot"}
+				st.ImplFailures = append(st.ImplFailures, f)
+			}
+			for k, v := range cst.Distribution {
+				st.Distribution[k] += v
+			}
+		}
+	}
 	if err := writeShards(a.out, prelude, "rc_case", items, defs, 60); err != nil {
 		return err
 	}
@@ -326,4 +349,70 @@ func runC03(a *args) error {
 	}
 	_ = uuid.Nil
 	return writeJSON(a.out+"/stats.json", st)
+}
+
+// c03RefusedSnapshot: the local snapshot + compaction fails because the store refuses the snapshot record (here: the
+// record is larger than the store accepts; an I/O error at that write has the same effect).  A failed attempt changes
+// nothing durable: after a stop and a restart every acknowledged write is there.
+func c03RefusedSnapshot(st *stats) {
+	c := newSimCluster([]uint64{1})
+	meta := newDatasetMeta(newRng(11), 2, pb.Space_Euclidean, [][]uint64{{1}}, 1)
+	inc, err := startIncarnation(c, meta, 0)
+	if err != nil {
+		st.count("refused-snapshot:setup-failed")
+		return
+	}
+	r := newRng(33)
+	var acked []uuid.UUID
+	insert := func(k int, blob int) {
+		id := uuidFrom(r)
+		ctx, cancel := context.WithTimeout(context.Background(), time.Second)
+		e := inc.ds.Insert(ctx, id, []float32{float32(k), 1}, index.Metadata{"blob": strings.Repeat("x", blob)})
+		cancel()
+		if e == nil {
+			acked = append(acked, id)
+		}
+	}
+	for k := 0; k < 20; k++ {
+		insert(k, 60000)
+	}
+	applied := inc.ds.VerifRaft(0).VerifStatus().Applied
+	serr := inc.ds.VerifRaft(0).VerifSnapshotNow(applied, 0)
+	st.count(fmt.Sprintf("refused-snapshot:attempt-failed=%v", serr != nil))
+	for k := 20; k < 23; k++ {
+		insert(k, 10)
+	}
+	inc.ds.VerifClose()
+	time.Sleep(3 * time.Millisecond)
+	inc2, err := func() (i *incarnation, e error) {
+		defer func() {
+			if p := recover(); p != nil {
+				e = fmt.Errorf("panic: %s", panicText(p))
+			}
+		}()
+		return startIncarnation(c, meta, 0)
+	}()
+	if err != nil {
+		st.ImplFailures = append(st.ImplFailures, implFailure{Case: -1, What: "after a local snapshot attempt that the store refused, the replica could not restart: " + err.Error(), Key: "restart-failed:refused-snapshot", Input: map[string]interface{}{"acked": len(acked)}})
+		return
+	}
+	deadline := time.Now().Add(3 * time.Second)
+	for time.Now().Before(deadline) {
+		s := inc2.ds.VerifRaft(0).VerifStatus()
+		if s.Lead == 1 && s.Applied >= s.Commit && s.Commit > 0 {
+			break
+		}
+		time.Sleep(2 * time.Millisecond)
+	}
+	time.Sleep(5 * time.Millisecond)
+	lost := 0
+	for _, id := range acked {
+		if _, e := inc2.ds.VerifIndex(0).Get(id); e != nil {
+			lost++
+		}
+	}
+	inc2.ds.VerifClose()
+	if lost > 0 {
+		st.ImplFailures = append(st.ImplFailures, implFailure{Case: -1, What: fmt.Sprintf("%d acknowledged inserts, a local snapshot attempt refused by the store (%v), 3 more inserts, stop, restart: %d acknowledged inserts are gone", len(acked), serr, lost), Key: "acknowledged-write-lost:refused-snapshot", Input: map[string]interface{}{"acked": len(acked), "lost": lost}})
+	}
 }
